@@ -312,11 +312,14 @@ package inputrc
 //@   requires cfg != nil
 //@   pure
 
+// cfgbool(cfg, name): the value GetBool reads (false unless the variable holds the bool true)
+//@ spec cfgbool(cfg *Config, name string) bool = cfg.Vars != nil && has(cfg.Vars, name) && typeis(cfg.Vars[name], "bool") && asbool(cfg.Vars[name])
 //@ func (*Config).GetBool
-//@   props C12 C01 C08
+//@   props C12 C01 C08 C06
 //@   terminates
 //@   requires cfg != nil
 //@   pure
+//@   ensures result == cfgbool(cfg, name)
 
 //@ func (*Config).GetInt
 //@   props C12 C01
